@@ -17,6 +17,8 @@ ASSUMPTIONS = ["5'-overhang cutters (all kit cutters and the 58 supported enzyme
 
 
 def check_case(ctx, case):
+    if "enz" in case and "sig" in case:
+        return check_three_prime(ctx, case)
     cls = asm.cls_by_name(case["cls"])
     wd = case["word"]
     n = len(wd)
@@ -74,9 +76,56 @@ def check_case(ctx, case):
                     cls.__name__, wd, inner), case)
 
 
+def check_three_prime(ctx, case):
+    """signature-typed part classes over a 3'-overhang cutter (outside the Lean model, which covers the 5' cutters
+    of the kits and of the generic classes): the clause about fragments that does not depend on the overhang
+    side — a vector's placeholder is a contiguous stretch and tiles the plasmid with its target; a module's
+    target is a contiguous stretch adjoining both reported overhangs — at every origin"""
+    enz = next(e for e in boot.three_prime_enzymes() if str(e) == case["enz"])
+    base = boot.AbstractModule if case["kind"] == "M" else boot.AbstractVector
+    cls = type("Part3_{}_{}".format(case["kind"], enz), (boot.AbstractPart, base),
+               {"cutter": enz, "signature": tuple(case["sig"])})
+    wd = case["word"]
+    n = len(wd)
+    res = T.evaluate(cls, wd)
+    ctx.note("3prime:" + res[0])
+    ctx.case(case, nontrivial=res[0] == "valid", key=["3p", case["enz"], case["kind"], wd])
+    if res[0].startswith("exc"):
+        ctx.fail("{} raises {} on {!r}".format(cls.__name__, res[0], wd), case)
+    if res[0] != "valid":
+        return
+    _, up, down, target, ph, _ = res
+    d = (wd + wd).upper()
+    if case["kind"] == "V":
+        if len(ph) + len(target) != n:
+            ctx.fail("3' vector over {}: placeholder ({}) and target ({}) do not add up to the plasmid ({})".format(
+                enz, len(ph), len(target), n), case)
+        elif asm.canon_rot((ph + target).upper()) != asm.canon_rot(wd.upper()):
+            ctx.fail("3' vector over {}: placeholder followed by target is not a rotation of the plasmid".format(enz), case)
+        if ph.upper() not in d:
+            ctx.fail("3' vector over {}: the placeholder is not a contiguous stretch of the plasmid".format(enz), case)
+    else:
+        if (up + target).upper() not in d or not target.upper().endswith(down.upper()):
+            ctx.fail("3' module over {}: upstream overhang, target, downstream overhang are not the contiguous "
+                     "stretch between the two cuts".format(enz), case)
+
+
 def run(ctx):
     rng = ctx.rng
     kits = boot.kit_classes()
+    three = boot.three_prime_enzymes()
+    for _ in range(ctx.budget(60, 2000)):
+        enz = rng.choice(three)
+        k = abs(enz.ovhg)
+        kind = rng.choice("MV")
+        sig = [gen.rnd(rng, k), gen.rnd(rng, k)]
+        base = boot.AbstractModule if kind == "M" else boot.AbstractVector
+        cls = type("Part3", (boot.AbstractPart, base), {"cutter": enz, "signature": tuple(sig)})
+        inst, _ = gen.instantiate(rng, cls.structure(), runlen=rng.choice([0, 2, 6]),
+                                  forbid=(enz.site, gen.rc(enz.site)))
+        wd = inst + gen.rnd_avoid(rng, rng.randint(2, 12), (enz.site, gen.rc(enz.site)))
+        ctx.guard(check_three_prime, {"enz": str(enz), "kind": kind, "sig": sig,
+                                      "word": gen.rot(wd, rng.randrange(len(wd)))})
     per = ctx.budget(20, 500)
     for cls in kits:
         name = asm.cls_name(cls)
